@@ -41,8 +41,8 @@ def parseWatchRec (s : String) : Option (Char × Nat × Nat × Nat) :=
 
 /-- `swatch <rec,rec,…>` → for every snapshot `in` when the value lies between what `Model/Unit.Watch` gives for the shortest and
     for the longest times compatible with the recorded clock readings (each operation happened somewhere between its two
-    readings; 2 µs per operation for the truncation to µs; a snapshot of a paused watch reads the clock twice, which can only
-    lower it, by at most the width of its own bracket), otherwise `out:<lo>:<hi>`; `panic` on an illegal transition -/
+    readings; 2 µs per operation for the truncation to µs; a snapshot of a paused watch reads the clock twice — first for the ongoing
+    pause, then for the total —, which can only raise it, by at most the width of its own bracket), otherwise `out:<lo>:<hi>`; `panic` on an illegal transition -/
 def handleSWatch : List String → Option String
   | [recs] => do
     let rs ← mapOpt parseWatchRec (splitList recs ",")
@@ -62,8 +62,8 @@ def handleSWatch : List String → Option String
           | some l, some h => go l h b a k rest acc
           | _, _ => ("panic" :: acc).reverse
         else
-          let low := lo1.active - 2 * k - (if lo1.paused then a - b else 0)
-          let high := hi1.active + 2 * k
+          let low := lo1.active - 2 * k
+          let high := hi1.active + 2 * k + (if hi1.paused then a - b else 0)
           go lo1 hi1 b a k rest ((if low ≤ v && v ≤ high then "in" else s!"out:{low}:{high}") :: acc)
     match rs with
     | ('n', b, a, _) :: rest => pure (",".intercalate (go {} {} b a 0 rest []))
